@@ -417,31 +417,16 @@ def run(ctx):
                   'the verdict is computed for a different request than the one sent', pl.loc())
     pr = repo.func(WEB + '._process_robots')
     rcfg = ctx.cfg(pr)
-    ret_true = [n for n in rcfg.nodes if n.kind == 'return' and isinstance(n.stmt.value, ast.Constant) and n.stmt.value.value is True]
-    d = U.local_defs(pr.node)
-    vg = [n for n in rcfg.nodes if n.kind == 'if' and isinstance(n.stmt.test, ast.UnaryOp) and isinstance(n.stmt.test.op, ast.Not)
-          and isinstance(n.stmt.test.operand, ast.Name)
-          and all(v is not None and '_should_fetch_reason_with_robots' in norm_text(v) and k == 'tuple:0' for v, k, s in d.get(n.stmt.test.operand.id, [(None, '', None)]))]
-    okp = bool(ret_true) and len(vg) == 1
-    if okp:
-        for rt in ret_true:
-            p1 = rcfg.find_path(rcfg.entry, lambda m: m is rt, edge_ok=lambda a, b, k: True, stop=lambda m: m is vg[0])
-            p2 = rcfg.find_path(vg[0], lambda m: m is rt, edge_ok=lambda a, b, k: True, first_edges=lambda a, b, k: k == 'T')
-            okp = okp and p1 is None and p2 is None
+    ret_true = [n for n in rcfg.nodes if n.kind == 'return' and not (isinstance(n.stmt.value, ast.Constant) and not n.stmt.value.value)]
+    okp = bool(ret_true) and all(isinstance(n.stmt.value, ast.Constant) and n.stmt.value.value is True for n in ret_true) \
+        and _gated_by_verdict(rcfg, pr, lambda v, k: v is not None and '_should_fetch_reason_with_robots' in norm_text(v) and k == 'tuple:0', ret_true)
     ck.expect(okp, 'C02-D4', pr.qual, 'returns True only after a true filters+robots verdict',
               '_process_robots can report "go ahead" without a true verdict', pr.loc())
     pp = repo.func(WEB + '.process')
     pcfg = ctx.cfg(pp)
     loopcall = F.stmt_nodes_where(pcfg, F.has_call('_process_loop'))
-    okgate = False
-    d = U.local_defs(pp.node)
-    for n in pcfg.nodes:
-        if n.kind == 'if' and isinstance(n.stmt.test, ast.UnaryOp) and isinstance(n.stmt.test.op, ast.Not) and isinstance(n.stmt.test.operand, ast.Name):
-            defs = d.get(n.stmt.test.operand.id, [])
-            if defs and all(v is not None and norm_text(v) == 'yield from self._process_robots()' for v, k, s in defs) \
-                    and n.stmt.body and isinstance(n.stmt.body[-1], ast.Return):
-                byp = [pcfg.find_path(pcfg.entry, lambda m, l=l: m is l, edge_ok=lambda a, b, k: True, stop=lambda m: m is n) for l in loopcall]
-                okgate = bool(loopcall) and all(b is None for b in byp)
+    okgate = bool(loopcall) and _gated_by_verdict(pcfg, pp, lambda v, k: v is not None and norm_text(v) == 'yield from self._process_robots()' and k == 'assign',
+                                                  loopcall)
     ck.expect(okgate, 'C02-D4', pp.qual, 'the fetch loop runs only after _process_robots() said yes',
               'WebProcessorSession.process can start fetching without the initial verdict', pp.loc())
     FTP = 'wpull.processor.ftp:FTPProcessorSession'
@@ -530,6 +515,9 @@ def run(ctx):
                    'option wiring: %s is never added to the filter list' % cname, bf.loc())
             continue
         t, call, app = found[cname]
+        # pure single-definition locals (`tries = args.tries`) are read through
+        t = U.expand_locals(bf.node, t, d, skip=(A,))
+        call = ast.copy_location(U.expand_locals(bf.node, call, d, skip=(A,)), call)
         okc = _same_bool(it, t, cond)
         okk = _same_call(repo, call, ctor)
         oklist = norm_text(app.func.value) in d and True
@@ -595,6 +583,28 @@ def run(ctx):
     okfr = fr is not None and norm_text(U.expand_locals(fr[0].node, U.kwarg(fr[1], 'url_filter') or ast.Constant(value=None))).endswith("factory['DemuxURLFilter']")
     ck.expect(okfr, 'C02-D5', fr[0].qual if fr else 'FetchRule construction', "FetchRule(url_filter=factory['DemuxURLFilter'])",
               'FetchRule is not given the demux filter', fr[0].loc(fr[1]) if fr else '')
+
+
+def _gated_by_verdict(cfg, fi, is_verdict_def, goals):
+    """Every path from the entry to a goal node passes an assignment `V = <verdict>` (all definitions of V satisfy
+    is_verdict_def(value, kind)), and no path from such an assignment that is consistent with V being falsy reaches a goal."""
+    d = U.local_defs(fi.node)
+    names = [n for n, defs in d.items() if defs and all(is_verdict_def(v, k) for v, k, s in defs)]
+    for v in names:
+        stmts = [s for _, _, s in d[v]]
+        anodes = [n for n in cfg.nodes if n.kind == 'stmt' and any(n.stmt is s for s in stmts)]
+        if not anodes:
+            continue
+        ok = True
+        for g in goals:
+            if cfg.find_path(cfg.entry, lambda m, g=g: m is g, edge_ok=lambda a, b, k: True, stop=lambda m: m in anodes) is not None:
+                ok = False
+            for a in anodes:
+                if F.feasible_path(cfg, a, lambda m, g=g: m is g, edge_ok=F.normal, init={(v, 0): frozenset({'eq'})}) is not None:
+                    ok = False
+        if ok:
+            return True
+    return False
 
 
 def _same_bool(it, test, ref_src):
